@@ -532,9 +532,9 @@ impl Compress {
         res
     }
 
-    /// Compress a name starting at `offset` using the suffix dictionary `dict`
-    /// `base_offset` is an additional offset added to the location stored in
-    /// the dictionary. This function assumes that the input is trusted and
+    /// Compress a name starting at `offset` using the suffix dictionary `dict`.
+    /// Suffixes are remembered at their location in `compressed`;
+    /// `_base_offset` is kept for API compatibility. This function assumes that the input is trusted and
     /// uncompressed, and doesn't perform any checks. Returns the length of
     /// the name as well as the location right after the uncompressed name.
     pub fn copy_compressed_name_with_base_offset(
@@ -542,7 +542,7 @@ impl Compress {
         compressed: &mut Vec<u8>,
         packet: &[u8],
         mut offset: usize,
-        base_offset: usize,
+        _base_offset: usize,
     ) -> CompressedNameResult {
         let uncompressed_name_len = Compress::raw_name_len_after_decompression(packet, offset);
         let initial_compressed_len = compressed.len();
@@ -554,10 +554,9 @@ impl Compress {
             if label_len & 0xc0 == 0xc0 {
                 panic!("copy_compressed_name() called on an already compressed name");
             }
-            if let Some(ref_offset) =
-                dict.insert(&packet[offset..final_offset], base_offset + offset)
+            if let Some(ref_offset) = dict.insert(&packet[offset..final_offset], compressed.len())
             {
-                assert!(offset < 65536 >> 2); // Checked in dict.insert()
+                assert!(ref_offset < 65536 >> 2); // Checked in dict.insert()
                 compressed.push((ref_offset >> 8) as u8 | 0xc0);
                 compressed.push((ref_offset & 0xff) as u8);
                 break;
